@@ -94,6 +94,11 @@ def observe_python(mod):
         v = getattr(mod, k)
         if isinstance(v, (int, float)) and not isinstance(v, bool) and (k.startswith('K') or k.startswith('E_')):
             out[('const' if k.startswith('K') else 'enumerator', k)] = v
+    # the enum class's own descriptor (what the codec puts on the wire) must carry the same integers as the module constants
+    if hasattr(mod, 'En'):
+        for name, value in mod.En._enumerators:
+            if out.get(('enumerator', name)) != value:
+                out[('enumerator', name)] = {'module_constant': out.get(('enumerator', name)), 'enum_descriptor': value}
     if hasattr(mod, 'S'):
         for f in mod.S._descriptor:
             out[('size', f.name)] = f.type._SIZE
@@ -152,6 +157,16 @@ def build_isar(rng, n_consts, ops, c_safe):
     for i in range(3):
         name = 'E_%d' % i
         t, v = exprs.gen_tree(rng, env, depth=2, want_nonneg=True, ops=ops, bound=1 << 31)
+        prev = [it for it in items if it[0] == 'enumerator' and it[2][0] == 'bin']
+        if prev and rng.random() < 0.6:
+            # an earlier enumerator of this enum, itself a compound expression, used under a tighter operator
+            pn, pv = prev[-1][1], prev[-1][4]
+            k = rng.randint(2, 5)
+            t, v = rng.choice([(['bin', '*', ['name', pn], ['num', k]], pv * k),
+                               (['bin', '-', ['num', pv + k + 7], ['name', pn]], k + 7),
+                               (['bin', '*', ['num', k], ['name', pn]], pv * k)])
+            if v >= 1 << 31:
+                t, v = ['bin', '-', ['num', pv + k], ['name', pn]], k
         if v in used:
             continue
         used.add(v)
@@ -214,7 +229,11 @@ def run_isar_stream(chk, workdir, n_schemas, c_safe):
             for k in dir(mod):
                 v = getattr(mod, k)
                 if isinstance(v, (int, float)) and not isinstance(v, bool) and (k.startswith('K') or k.startswith('E_')):
-                    op[('const' if k.startswith('K') else 'enumerator', k)] = v
+                    op.setdefault(('const' if k.startswith('K') else 'enumerator', k), v)
+            if hasattr(mod, 'En'):
+                for ename, evalue in mod.En._enumerators:
+                    if op.get(('enumerator', ename)) != evalue:
+                        op[('enumerator', ename)] = {'module_constant': op.get(('enumerator', ename)), 'enum_descriptor': evalue}
             import_error = None
         except Exception as ex:  # noqa
             op, import_error = {}, '%s: %s' % (type(ex).__name__, str(ex)[:200])
